@@ -63,6 +63,9 @@ def check(run):
                          'right markers), so that frames of different senders can be told apart', 8)
     with R.as_rule('C11.frames'):
         C03.lenenc(R)
+        C03.flags(R)         # header bits as the peer reads them
+        C03.mask(R)          # the key in the frame is the key the payload was masked with: drawn per frame, not from
+                             # state shared between the sending threads
     from . import C06
     with R.as_rule('C11.wireorder'):
         C06.wiring(R)        # the shared deflate context is configured as negotiated (reset flags / windows not crossed)
